@@ -46,6 +46,8 @@ std::string output_filename(const char* input_filename, const char* extension)
 	char *last_dot;
 	strncpy(str,input_filename, 256);
 	last_dot = strrchr(str, '.');
+	if(last_dot && strchr(last_dot, '/'))
+		last_dot = NULL; // the dot belongs to a directory name, not to the file name
 	if(last_dot)
 		*last_dot = 0;
 	else
